@@ -217,6 +217,37 @@ pub fn run(ctx: &Ctx) -> Outcome {
     let mut rep = run_sharded(ctx, |w, nw, rep| {
         let ls = LangSet::new();
         let mut rng = Rng::derive(ctx.seed, "C09", w as u64);
+        // table / lookup agreement (hook H2): every word of a language's own linking-word table must be answered "linking"
+        // by that language's lookup, through the concrete type and through the facade, and must not break a sequence
+        if w == 0 {
+            for code in LANGS {
+                let api = ls.api(code);
+                let facade = crate::api::facade(code);
+                let info = crate::spell::info(code);
+                let table = text2num::verif_hooks::linking_vocabulary(code);
+                rep.add("linking_table_words_checked", table.len() as u64);
+                if table.is_empty() {
+                    rep.inconclusive.push(format!("hook H2 returned an empty linking-word table for {}", code));
+                }
+                for word in table {
+                    rep.eval(crate::rng::hash_bytes(&[b"linking-table", code.as_bytes(), word.as_bytes()]), true);
+                    let mut fail: Option<String> = None;
+                    if !api.is_linking(word) || !facade.is_linking(word) {
+                        fail = Some(format!("the word {:?} is in the linking-word table of {} but is_linking answers {} (concrete) / {} (facade)", word, code, api.is_linking(word), facade.is_linking(word)));
+                    } else if !api.is_number_word(word) && !api.is_decimal_sep(word) && word != info.conj {
+                        // two single digits around the word: a linking word is ignored, so both are part of a sequence
+                        let toks = vec![crate::api::IdTok::new(0, info.digits[2]), crate::api::IdTok::new(1, word), crate::api::IdTok::new(2, info.digits[3])];
+                        let f = api.find(&toks, 10.0);
+                        if f.len() != 2 && !grammar_swallows(api, word) {
+                            fail = Some(format!("{:?} is a linking word of {} but the sequence {:?} {:?} {:?} at threshold 10 gives {}", word, code, info.digits[2], word, info.digits[3], crate::api::show_occs(&f)));
+                        }
+                    }
+                    if let Some(msg) = fail {
+                        rep.violation(&format!("{}:linking-table", code), jobj! {"kind" => "linking-table", "lang" => code, "word" => word}, format!("[{}] {}", code, msg));
+                    }
+                }
+            }
+        }
         // bounded exhaustive part: every stream of up to 4 (thorough: 5) tokens over the small alphabet of each language,
         // judged with the policy model (lower-case, hint-free)
         let (n_small, cut) = streams::for_each_small_stream(&ls.lex, if ctx.quick() { 4 } else { 5 }, w, nw, &|| ctx.elapsed() > ctx.budget_s * 0.5, &mut |code, toks| {
@@ -282,13 +313,22 @@ pub fn run(ctx: &Ctx) -> Outcome {
     if !ctx.quick() {
         super::legs::fuzz_leg(ctx, &mut rep, 45);
     }
-    let rule = "cases = every stream of 1..4 (thorough 1..5) tokens over a 16-word alphabet per language (counter exhaustive_small_alphabet_streams) and grammar-noise token streams, each scanned at 9 base thresholds (0,1,3,5,10,25,inf,NaN,-1) plus value and value +/- 0.5 of its first numbers; universal laws on every stream: F(t) subset of F(0) as exact tuples, monotonicity over all ordered threshold pairs, t<=0 or NaN rewrites everything, every non-small number is reported; policy model (lower-case, hint-free streams): a small number is reported iff a neighbour of the same kind is linked through a soft gap; gaps are soft (whitespace, hyphen, letter-free tokens other than a lone period, linking words, the conjunction) / hard (a lone period, a word that is not linking) / ambiguous (the separator word, a conjunction flagged not-a-number that the language does not list as linking: not judged); non-trivial = stream with at least one recognised number";
+    let rule = "table/lookup agreement: every word of each language's linking-word table (hook H2) is answered linking and does not break a sequence of two digits; cases = every stream of 1..4 (thorough 1..5) tokens over a 16-word alphabet per language (counter exhaustive_small_alphabet_streams) and grammar-noise token streams, each scanned at 9 base thresholds (0,1,3,5,10,25,inf,NaN,-1) plus value and value +/- 0.5 of its first numbers; universal laws on every stream: F(t) subset of F(0) as exact tuples, monotonicity over all ordered threshold pairs, t<=0 or NaN rewrites everything, every non-small number is reported; policy model (lower-case, hint-free streams): a small number is reported iff a neighbour of the same kind is linked through a soft gap; gaps are soft (whitespace, hyphen, letter-free tokens other than a lone period, linking words, the conjunction) / hard (a lone period, a word that is not linking) / ambiguous (the separator word, a conjunction flagged not-a-number that the language does not list as linking: not judged); non-trivial = stream with at least one recognised number";
     finish(ctx, rep, rule, &["'is this a linking word / a separator word' is asked of the running library through the public trait methods", "gaps that contain the decimal-separator word are not judged (DESIGN.md C09); letter-free tokens other than a lone period are transparent, as the property's anchor states"], vec![])
 }
 
 pub fn replay(case: &J) -> Vec<String> {
     let ls = LangSet::new();
     let code = case.str_of("lang");
+    if case.str_of("kind") == "linking-table" {
+        let word = case.str_of("word");
+        let api = ls.api(&code);
+        let listed = text2num::verif_hooks::linking_vocabulary(&code).iter().any(|w| *w == word);
+        if listed && !api.is_linking(&word) {
+            return vec![format!("{:?} is in the linking-word table of {} but is_linking answers false", word, code)];
+        }
+        return vec![];
+    }
     let toks = streams::stream_from_json(case.get("tokens").unwrap_or(&J::Null));
     let model = case.get("model").and_then(|x| x.as_bool()).unwrap_or(false);
     check_stream(&ls, &code, &toks, model).failure.into_iter().collect()
